@@ -36,6 +36,10 @@ type Cluster struct {
 	DBs map[string]*DBConfig
 
 	nextOwner uint64
+
+	// OpLog, if non-nil, receives every file operation the nodes' writer connections
+	// issue (and state rebuilds): a debugging aid for timing-dependent failures.
+	OpLog *[]string
 }
 
 // DBConfig is the per-database configuration every writer uses.
@@ -386,6 +390,11 @@ func (n *CNode) state(db string) (*dbState, error) {
 	model.SetSaltSeed(uint32(n.cl.nextOwner)) // salts are random in SQLite: never equal across nodes or reopenings
 	conn := pager.NewConn(n.M, model, n.cl.nextOwner)
 	conn.JournalMode, conn.Sync, conn.SectorSize = cfg.JournalMode, cfg.Sync, cfg.Sector
+	if lg := n.cl.OpLog; lg != nil {
+		*lg = append(*lg, fmt.Sprintf("%s: writer state rebuilt at %s", n.Name, pos))
+		name := n.Name
+		conn.OnOp = func(op string) { *lg = append(*lg, name+": "+op) }
+	}
 	st = &dbState{model: model, conn: conn, knownPos: pos}
 	n.states[db] = st
 	return st, nil
